@@ -4,6 +4,7 @@ use spl_frontend::{lexer, TextChange};
 use std::io::{BufRead, Write};
 use std::panic::{catch_unwind, AssertUnwindSafe};
 use verif_harness::encode::*;
+use verif_harness::encode_ast::*;
 
 fn run_lex(args: &[u64]) -> Vec<u64> {
     let text = text_of(args).expect("bad text");
@@ -48,6 +49,21 @@ fn run_update(args: &[u64]) -> Vec<u64> {
     }
 }
 
+fn run_parse(args: &[u64]) -> Vec<u64> {
+    let text = text_of(args).expect("bad text");
+    match catch_unwind(AssertUnwindSafe(|| {
+        let tokens = lexer::lex(&text);
+        spl_frontend::parser::parse(&tokens)
+    })) {
+        Ok(program) => {
+            let mut out = vec![0];
+            enc_program(&program, &mut out);
+            out
+        }
+        Err(_) => vec![1],
+    }
+}
+
 fn main() {
     std::panic::set_hook(Box::new(|_| {}));
     let stdin = std::io::stdin();
@@ -62,6 +78,7 @@ fn main() {
         let out = match nums.first() {
             Some(1) => run_lex(&nums[1..]),
             Some(2) => run_update(&nums[1..]),
+            Some(7) => run_parse(&nums[1..]),
             _ => vec![4],
         };
         let strs: Vec<String> = out.iter().map(|n| n.to_string()).collect();
